@@ -1,6 +1,6 @@
 (* C01/Props.v -- pinned property theorems (statements only, closed by `exact`). *)
 From NV.Common Require Import Base.
-From NV.C01 Require Import Model LogList VoteSim LogMatch Inst.
+From NV.C01 Require Import Model LogList VoteSim LogMatch Commit Inst.
 From NV.gen Require Import Gen_C01.
 Open Scope N_scope.
 
@@ -44,6 +44,27 @@ Proof.
   pose proof (gen_quorum_majority n). lia.
 Qed.
 
+(* LEADER COMPLETENESS (for quorum-acknowledged entries).  gl is the ghost ledger of the run (gl t = the log
+   of the leader of term t; LMI/LCI tie it to the node logs and to the messages in the pool).  Acked v t m:
+   node v sent a successful AppendEntriesResponse in term t with match_index >= m (the response is in the
+   pool), or v is the leader of term t; QA t m: a quorum of distinct nodes has acknowledged position m of
+   ledger t, an entry created in term t.  Then, in every reachable state, every node that is leader of a
+   later term holds the first m entries of ledger t.  (This is what makes the leader's commit rule safe;
+   the statement about commit_index itself -- state-machine safety -- is C01_state_machine_safety below /
+   or listed as not yet proved in DESIGN.md.) *)
+Theorem C01_leader_completeness : forall n ab mp ops,
+  let cfg := cluster n ab mp in
+  let s := grun cfg gen_rules ops in
+  exists gl a, LMI cfg s gl a /\ LCI cfg s gl a /\
+    forall t m, QA cfg s gl a t m ->
+      forall c, c < n_nodes cfg -> rl (nth_node (nodes s) c) = Leader -> t < term (nth_node (nodes s) c) ->
+        firstn m (log (nth_node (nodes s) c)) = firstn m (gl t).
+Proof.
+  intros n ab mp ops. apply (leader_completeness (cluster n ab mp) gen_rules).
+  - cbn [cluster n_nodes quorum]. pose proof (gen_quorum_majority n). lia.
+  - intros p ln len. apply gen_ack_verified.
+Qed.
+
 (* non-vacuity: a concrete 3-node schedule elects a leader and replicates an entry *)
 Example C01_nonvacuous :
   let ops := [GElect 0; GDeliver 0 true; GDeliver 2 true; GPropose 0 7 true; GHeartbeat 0; GDeliver 3 true] in
@@ -55,3 +76,4 @@ Proof. vm_compute. repeat split; reflexivity. Qed.
 Print Assumptions C01_election_safety.
 Print Assumptions C01_log_matching.
 Print Assumptions C01_logs_well_formed.
+Print Assumptions C01_leader_completeness.
